@@ -8,7 +8,9 @@
 //       G<g>            create task_group g (owned by this unit; waited + destroyed at unit end)
 //       R<g>:<u>        g.run(unit u)              H<g>:<u>   g.run(g.defer(unit u))
 //       Q<g>:<u>        g.run_and_wait(unit u)     T<g>       g.wait()        C<g>   g.cancel()
-//       P<n>:<grain>:<part>:<k>   parallel_for over [0,n) (part 0 simple 1 auto 2 static 3 affinity), k work per index
+//       P<n>:<grain>:<part>:<k>:<ctx>   parallel_for over [0,n) (part 0 simple 1 auto 2 static 3 affinity), k work per index;
+//                       ctx=1: with its own ISOLATED task_group_context (a cancelled enclosing group must not touch it: every index runs)
+//       K<n>            try_put n messages to a flow-graph function_node that has a node priority (critical tasks in the dispatch loop)
 //       E<a>:<u>        arena a enqueue(unit u)    X<a>:<u>   arena a execute(inline unit u)
 //       I<u>            this_task_arena::isolate(inline unit u)
 //       S               idle: wait until every other thread is blocked (workers asleep)
@@ -17,6 +19,7 @@
 #include "oneapi/tbb/parallel_for.h"
 #include "oneapi/tbb/global_control.h"
 #include "oneapi/tbb/partitioner.h"
+#include "oneapi/tbb/flow_graph.h"
 #include "../engine/drv/drv.h"
 
 const char* H_PROP = "C01";
@@ -50,7 +53,8 @@ static void gen_unit(GenSt& g, int uid, int depth, int own_group /* group this u
             g.budget -= 1;
             static const int ns[] = { 4, 1, 2, 7, 16, 33, 64 };
             int n = ns[g.s.choose(7)]; int grain = g.s.range(1, 4);
-            o += " P" + std::to_string(n) + ":" + std::to_string(grain) + ":" + std::to_string(g.s.choose(4)) + ":" + std::to_string(g.s.range(0, 4));
+            if (g.s.coin(3)) o += " K" + std::to_string(g.s.range(1, 2));       // a critical (priority) task is pending when the loop's root task enters the dispatcher
+            o += " P" + std::to_string(n) + ":" + std::to_string(grain) + ":" + std::to_string(g.s.choose(4)) + ":" + std::to_string(g.s.range(0, 4)) + ":" + std::to_string((int)g.s.coin(3));
         } else if (c == 4) { int u = g.next_unit++; g.budget--; int a = (int)g.s.choose((uint32_t)g.narenas); o += " E" + std::to_string(a) + ":" + std::to_string(u); todo.push_back({ u, -2 }); todo_arena[u] = a; }
         else if (c == 5) {
             std::vector<int> ok; for (int a = 0; a < g.narenas; a++) if (std::find(chain.begin(), chain.end(), a) == chain.end()) ok.push_back(a);
@@ -59,6 +63,8 @@ static void gen_unit(GenSt& g, int uid, int depth, int own_group /* group this u
         else if (c == 6) { int u = g.next_unit++; g.budget--; o += " I" + std::to_string(u); todo.push_back({ u, -4 }); }
         else if (c == 7) o += " S";
         else if (c == 8) { int grp = mine[g.s.choose((uint32_t)mine.size())]; o += (g.s.choose(6) == 5 ? " C" : " T") + std::to_string(grp); }
+        else if (g.s.coin(2)) o += " K" + std::to_string(g.s.range(1, 3));
+        else if (own_group >= 0 && !inline_unit && g.s.coin(2)) o += " C" + std::to_string(own_group);      // a task cancels the group it runs in (its siblings may be skipped, it goes on)
         else o += " W" + std::to_string(g.s.range(1, 3));
     }
     (void)inline_unit;
@@ -85,7 +91,7 @@ std::string h_gen(Src& s) {
 }
 
 // ------------------------------------------------------------------ interpreter
-struct Op { char c; int a = 0, b = 0, d = 0, e = 0; };
+struct Op { char c; int a = 0, b = 0, d = 0, e = 0, f = 0; };
 struct Unit {
     std::vector<Op> ops; int group = -1, parent = -1; bool submitted = false, is_task = false, enq = false;
     uint64_t sub_inv = 0, sub_ret = 0, t_start = 0, t_fin = 0; int started = 0, finished = 0, live = 0, made = 0, submit_thread = -1, exec_thread = -1;
@@ -98,12 +104,14 @@ static long n_stolen = 0, n_enq_other = 0, n_nested_wait_exec = 0, n_pfor_other 
 static bool idle_seen = false;
 static std::vector<std::vector<int>> pf_counts; static std::vector<char> pf_tainted;
 
+static tbb::flow::graph* FG = nullptr; static tbb::flow::function_node<int, int>* PN = nullptr; static std::vector<int> k_ran; static long n_crit_other = 0;
 static void exec_unit(int uid);
 struct Fn {
     int uid;
     explicit Fn(int u) : uid(u) { U[u].live++; U[u].made++; }
     Fn(const Fn& o) : uid(o.uid) { U[uid].live++; U[uid].made++; }
-    ~Fn() { if (--U[uid].live < 0) vs_violation("DOUBLE-DESTROY", "functor of unit %d destroyed more often than constructed", uid); }
+    ~Fn() { if (vs_active()) vs_work(1);      // destroying the user's functor takes time: a wait must not return before it is over
+            if (--U[uid].live < 0) vs_violation("DOUBLE-DESTROY", "functor of unit %d destroyed more often than constructed", uid); }
     void operator()() const { exec_unit(uid); }
 };
 static bool tainted_chain(int uid) {   // some ancestor group has a cancel somewhere in the program text
@@ -127,6 +135,7 @@ static void check_wait(int g, uint64_t winv, const char* how) {
         if (U[u].started > 1 || U[u].finished > 1) vs_violation("RAN-TWICE", "unit %d started=%d finished=%d", u, U[u].started, U[u].finished);
         if (U[u].started != U[u].finished) vs_violation("WAIT-TOO-EARLY", "%s of group %d returned while covered unit %d is still running", how, g, u);
         if (U[u].finished == 0 && !U[u].tainted) vs_violation("WAIT-TOO-EARLY", "%s of group %d returned although covered unit %d (submit returned at %lu < wait invoked at %lu) has not run", how, g, u, (unsigned long)U[u].sub_ret, (unsigned long)winv);
+        if (U[u].live != 0) vs_violation("WAIT-TOO-EARLY", "%s of group %d returned while %d copies of the functor of covered unit %d are still alive (the library has not finished destroying the task)", how, g, U[u].live, u);
     }
 }
 static void submit_prep(int u, int g, bool task) {
@@ -153,7 +162,8 @@ static void run_ops(int uid) {
         case 'T': { uint64_t winv = vs_now(); G[op.a].tg->wait(); check_wait(op.a, winv, "wait"); break; }
         case 'C': G[op.a].tg->cancel(); break;
         case 'P': {
-            int id = op.e; int n = op.a; bool taint = tainted_chain(uid) ; pf_tainted[id] = taint;
+            int id = op.e; int n = op.a; bool own_ctx = op.f != 0; bool taint = !own_ctx && tainted_chain(uid); pf_tainted[id] = taint;
+            tbb::task_group_context ictx(tbb::task_group_context::isolated);
             int me_t = vs_self(); int wk = op.d >> 8; int part = op.d & 255; int rounds = part == 3 ? 2 : 1;
             tbb::affinity_partitioner ap;      // second round replays the recorded affinity: chunks are mailed to the slots that ran them
             for (int rd = 0; rd < rounds; rd++) {
@@ -163,13 +173,20 @@ static void run_ops(int uid) {
                     for (int i = r.begin(); i < r.end(); i++) { if (i < 0 || i >= n) vs_violation("OUT-OF-RANGE", "parallel_for body got index %d outside [0,%d)", i, n); if (++pf_counts[id][off + i] > 1) vs_violation("RAN-TWICE", "parallel_for index %d executed twice", i); vs_work(wk); }
                     if (vs_self() != me_t) { n_pfor_other++; if (part >= 2) n_affinity_other++; if (idle_seen) n_after_idle++; } };
                 tbb::blocked_range<int> rg(0, n, (size_t)op.b);
-                if (part == 0) tbb::parallel_for(rg, body2, tbb::simple_partitioner());
+                if (own_ctx) {
+                    if (part == 0) tbb::parallel_for(rg, body2, tbb::simple_partitioner(), ictx);
+                    else if (part == 1) tbb::parallel_for(rg, body2, tbb::auto_partitioner(), ictx);
+                    else if (part == 2) tbb::parallel_for(rg, body2, tbb::static_partitioner(), ictx);
+                    else tbb::parallel_for(rg, body2, ap, ictx);
+                }
+                else if (part == 0) tbb::parallel_for(rg, body2, tbb::simple_partitioner());
                 else if (part == 1) tbb::parallel_for(rg, body2, tbb::auto_partitioner());
                 else if (part == 2) tbb::parallel_for(rg, body2, tbb::static_partitioner());
                 else tbb::parallel_for(rg, body2, ap);
                 if (!taint) for (int i = 0; i < n; i++) if (pf_counts[id][off + i] != 1) vs_violation("WAIT-TOO-EARLY", "parallel_for returned but index %d ran %d times", i, pf_counts[id][off + i]);
             }
             break; }
+        case 'K': for (int i = 0; i < op.a; i++) { int id = (int)k_ran.size(); k_ran.push_back(0); if (!PN->try_put(id)) vs_violation("LOST-TASK", "unlimited function_node rejected message %d", id); } break;
         case 'E': submit_prep(op.b, -1, true); U[op.b].enq = true; A[op.a]->enqueue(Fn(op.b)); U[op.b].sub_ret = vs_now(); break;
         case 'X': { submit_prep(op.b, -1, false); int u = op.b; A[op.a]->execute([u] { exec_unit(u); }); U[u].sub_ret = vs_now();
             if (U[u].finished != 1) vs_violation("WAIT-TOO-EARLY", "task_arena::execute returned but its functor (unit %d) finished %d times", u, U[u].finished); break; }
@@ -202,7 +219,7 @@ void h_run(Case& c) {
         } else if (w[0] == "u") {
             int id = atoi(w[1].c_str()); if ((int)U.size() <= id) U.resize(id + 1);
             for (size_t i = 2; i < w.size(); i++) {
-                Op op; op.c = w[i][0]; int v[4] = { 0, 0, 0, 0 }; sscanf(w[i].c_str() + 1, "%d:%d:%d:%d", &v[0], &v[1], &v[2], &v[3]);
+                Op op; op.c = w[i][0]; int v[5] = { 0, 0, 0, 0, 0 }; sscanf(w[i].c_str() + 1, "%d:%d:%d:%d:%d", &v[0], &v[1], &v[2], &v[3], &v[4]); op.f = v[4];
                 op.a = v[0]; op.b = v[1]; if (op.c == 'I') op.b = v[0];
                 if (op.c == 'P') { op.d = v[2] | (v[3] << 8); op.e = npf++; }
                 if (op.c == 'G' || op.c == 'R' || op.c == 'H' || op.c == 'Q' || op.c == 'T' || op.c == 'C') { if ((int)G.size() <= op.a) G.resize(op.a + 1); if (op.c == 'C') G[op.a].cancel_in_text = true; }
@@ -217,12 +234,20 @@ void h_run(Case& c) {
     {
         tbb::global_control gc(tbb::global_control::max_allowed_parallelism, (size_t)par);
         for (auto& a : arenas) A.push_back(new tbb::task_arena(a.first, (unsigned)a.second));
+        bool use_fg = false; for (auto& u : U) for (auto& op : u.ops) if (op.c == 'K') use_fg = true;
+        // the graph gets an ISOLATED context: a bound one is attached, at its first use, beneath the group of whichever task happens to put first,
+        // and a cancel of that group would then legitimately cancel the graph
+        if (use_fg) { tbb::parallel_for(0, 1, [](int) {});      // the main thread has its implicit arena now: the graph attaches to it instead of creating one of its own
+            static tbb::task_group_context fgctx(tbb::task_group_context::isolated); FG = new tbb::flow::graph(fgctx); int main_t = vs_self();
+            PN = new tbb::flow::function_node<int, int>(*FG, tbb::flow::unlimited, [main_t](int id) { if (++k_ran[(size_t)id] > 1) vs_violation("RAN-TWICE", "priority node body ran twice for message %d", id); vs_work(1); if (vs_self() != main_t) n_crit_other++; return id; }, tbb::flow::node_priority_t(1)); }
         std::vector<int> tids;
         for (int e = 1; e < ext; e++) tids.push_back(vs_thread_start(ext_thread, (void*)(intptr_t)e));
         ext_thread((void*)(intptr_t)0);
         for (int t : tids) vs_thread_join(t);
         // enqueued work has no waiter: it must still run (DEADLOCK here = lost task)
         vs_block_until([] { for (auto& u : U) if (u.submitted && u.started != u.finished) return false; for (auto& u : U) if (u.enq && u.submitted && !u.finished) return false; return true; });
+        // every unit has finished, so every try_put has returned: wait_for_all must now cover all accepted messages
+        if (FG) { FG->wait_for_all(); for (size_t i = 0; i < k_ran.size(); i++) if (k_ran[i] != 1) vs_violation("WAIT-TOO-EARLY", "graph::wait_for_all returned but the body for accepted message %zu ran %d times", i, k_ran[i]); }
         if (kvl(c.lines[0], "quiesce", 1)) { vs_wait_quiescent(); for (size_t i = 0; i < U.size(); i++) if (U[i].submitted && U[i].live != 0) vs_violation("FUNCTOR-LEAK", "unit %zu: %d functor copies still alive at quiescence (made %d)", i, U[i].live, U[i].made); }
     }
     vs_end();
@@ -234,6 +259,7 @@ void h_run(Case& c) {
     }
     vs_stat_add("n_units", nsub); vs_stat_add("n_stolen", n_stolen); vs_stat_add("n_enq_other", n_enq_other); vs_stat_add("n_pfor_other", n_pfor_other);
     vs_stat_add("n_nested_exec", n_nested_wait_exec); vs_stat_add("n_waitchecks", n_wait_checks); vs_stat_add("n_affinity_other", n_affinity_other); vs_stat_add("n_after_idle", n_after_idle);
+    if (!k_ran.empty()) vs_stat_flag("critical_tasks"); vs_stat_add("n_critical", (long)k_ran.size());
     if (n_stolen) vs_stat_flag("stolen"); if (n_enq_other) vs_stat_flag("enqueue_other_thread"); if (n_pfor_other) vs_stat_flag("pfor_chunk_other_thread");
     if (n_affinity_other) vs_stat_flag("affinity_other_thread"); if (n_nested_wait_exec) vs_stat_flag("ran_inside_nested_wait"); if (n_after_idle) vs_stat_flag("after_worker_sleep");
     vs_stat_add("nt", (n_stolen + n_enq_other + n_pfor_other) > 0 ? 1 : 0);
